@@ -109,17 +109,20 @@ def run_reshape():
         raise ToolError("self-test failed: never dropping the removed component does not violate ExactlyOnce")
     return r
 
-def run_ledger():
+def run_ledger(tier="quick"):
     """spec/Ledger.tla: drop ledger of the table operations that keep an entity's shape (push, swap_remove
     per column with the shared length, clear, clone / clone_from, drop), with two self-test designs."""
     key = content_key()
-    r = cache_get("ledger", key)
+    cfgs = [("ok", "Ledger.cfg"), ("stale", "Ledger_stale.cfg"), ("overwrite", "Ledger_overwrite.cfg")]
+    if tier == "thorough":
+        cfgs += [("t3", "Ledger_t3.cfg"), ("t4", "Ledger_t4.cfg")]
+    r = cache_get("ledger-" + tier, key)
     if not r:
         r = {}
-        for d, cfg in (("ok", "Ledger.cfg"), ("stale", "Ledger_stale.cfg"), ("overwrite", "Ledger_overwrite.cfg")):
-            x = tlc_mc("Ledger.tla", cfg, os.path.join(WORK, "mc", "ledger-%s.meta" % d), workers=4, timeout=600)
+        for d, cfg in cfgs:
+            x = tlc_mc("Ledger.tla", cfg, os.path.join(WORK, "mc", "ledger-%s.meta" % d), workers=12 if d == "t4" else 4, timeout=1800)
             r[d] = {"ok": x["ok"], "violated": x["violated"], "distinct": x["distinct"], "generated": x["generated"]}
-        cache_put("ledger", key, r)
+        cache_put("ledger-" + tier, key, r)
     for d, why in (("stale", "decrementing the shared length inside the per-column swap_remove loop"),
                    ("overwrite", "clone_from that overwrites cells without dropping them")):
         if r[d]["ok"]:
@@ -176,7 +179,11 @@ def run_world_prop(prop, tier, seed, replay):
             mc = [{"cfg": "Reshape_last.cfg", "desc": "row move of Entry::add / Entry::remove through the packed buffer, every instance over 3 components, <=3 + <=2 rows, every moved row: the removed value is dropped exactly once and nothing else is (self-tests: the pinned design violates ExactlyOnce, the drop-in-the-middle design violates Consistent)",
                    "ok": r["last"]["ok"], "generated": r["last"]["generated"], "distinct": r["last"]["distinct"],
                    "violated": r["last"]["violated"], "log": "-", "wall": 0}]
-            lg = run_ledger()
+            lg = run_ledger(tier)
+            for d, desc in (("t3", "Ledger.tla with 3 columns x <=3 rows, 24 value identities"), ("t4", "Ledger.tla with 2 columns x <=4 rows, 24 value identities")):
+                if d in lg:
+                    mc.append({"cfg": "Ledger_%s.cfg" % d, "desc": desc, "ok": lg[d]["ok"], "generated": lg[d]["generated"],
+                               "distinct": lg[d]["distinct"], "violated": lg[d]["violated"], "log": "-", "wall": 0})
             mc.append({"cfg": "Ledger.cfg", "desc": "drop ledger of the shape-preserving table operations (push, per-column swap_remove under the shared length, clear, clone / clone_from, drop) on 2 tables x 2 columns x <=3 rows, 20 value identities: ExactlyOnce / NoLeak / NoDangling / NoAlias (self-tests: a length decremented inside the column loop and a clone_from that overwrites without dropping must each violate an invariant)",
                        "ok": lg["ok"]["ok"], "generated": lg["ok"]["generated"], "distinct": lg["ok"]["distinct"],
                        "violated": lg["ok"]["violated"], "log": "-", "wall": 0})
